@@ -1369,11 +1369,15 @@ class Emitter:
             raise ScanError("Consist: expected exactly one nested collection (loco_vec: Vec<Locomotive>), found %s" % [k[0] for k in ckids])
         lv = ckids[0][0]
         ce = cedges[lv]
+        A("/-- one element of `Consist.loco_vec`, as called by the loops of `Consist::{step, save_state, set_save_interval}` -/")
+        A("def consistLoco (v : Variant) : Tree :=")
+        A("  locomotiveWith %s 0 %d %d %d %d v" % (lean_str(lv), ce["stepCalls"], ce["saveOut"], ce["saveIn"], ce["setCalls"]))
+        A("")
         A("def consistWith (nm : String) (tag sc so si st : Nat) (vs : List Variant) : Tree :=")
         A("  .node %s %d none []" % (
             lean_info("nm", cinfo, "[]", {"tag": "tag", "stepCalls": "sc", "saveOut": "so", "saveIn": "si", "setCalls": "st"}),
             w.init_i("Consist")))
-        A("    (vs.map (locomotiveWith %s 0 %d %d %d %d))" % (lean_str(lv), ce["stepCalls"], ce["saveOut"], ce["saveIn"], ce["setCalls"]))
+        A("    (vs.map consistLoco)")
         A("")
         # ---- simulations
         A("inductive Kind where")
@@ -1491,6 +1495,7 @@ def variantTree : Variant → Tree
 def locoSetDeep : Variant → List (List Nat)
   | .Unknown => []
 def locomotiveWith (_nm : String) (_tag _sc _so _si _st : Nat) (v : Variant) : Tree := variantTree v
+def consistLoco (v : Variant) : Tree := variantTree v
 def consistWith (_nm : String) (_tag _sc _so _si _st : Nat) (_vs : List Variant) : Tree := variantTree .Unknown
 inductive Kind where
   | loco | consist | setSpeed | speedLimit
